@@ -332,7 +332,12 @@ def iteritems(val: t.Any) -> t.Iterable[tuple[t.Any, t.Any]]:
 
 def _is_iterable_of_pairs(val: t.Any) -> tuple[bool, t.Any]:
     cls = val.__class__
-    if not inspection.isiterabletype(cls) or inspection.ismappingtype(cls):
+    # A named tuple is a structured object, whatever its first field holds.
+    if (
+        not inspection.isiterabletype(cls)
+        or inspection.ismappingtype(cls)
+        or inspection.isnamedtuple(cls)
+    ):
         return False, val
 
     if inspection.issequencetype(cls):
